@@ -715,6 +715,10 @@ def check(ctx):
     # that was last requested (no request is dropped on the way)
     from . import c08
     c08.state_stored(ctx, rule='C03.3')
+    # shared with C08.5: a server that comes back is read again (partition,
+    # traits, capacity) before it is marked up, whatever it still holds
+    with ctx.shared({'C08': 'C03.3'}):
+        c08._presence(ctx)
 
 
 _S = 'lib/python/treadmill/scheduler/__init__.py'
